@@ -30,7 +30,7 @@ theorem invoke_fin {params : List Name} {fl : DefFlags} {own lex : Bool} {B : St
     (hr : r ≠ .timeout)
     (core : ∀ bound σ1 o l3 σ2, zipArgs params vs = some bound → σ1.bufs = σ.bufs → σ1.frames = σ.frames →
        σ1.next = σ.next → σ1.nextId = σ.nextId →
-       exec (progOf ts k) n B ⟨bound ++ l.vars, l.funs, l.writer, [], clex, clex, lex, cmod⟩ σ1 = (o, l3, σ2) →
+       exec (progOf ts k) n B ⟨bound ++ l.vars, l.funs, l.writer, [], clex, clex, [], lex, cmod⟩ σ1 = (o, l3, σ2) →
        o ≠ .timeout →
        ∃ R, Ev (fun m => Spec.snodes ⟨ts, k⟩ m sf.body (innerEnv sf lexS bound E pend) σ1.cnt) R ∧
          σ2.bufs = (i, top ++ (coreRes k fl R).out) :: rest ∧ σ2.cnt = (coreRes k fl R).cnt ∧
@@ -137,7 +137,7 @@ theorem relc_def_start {l : Loc} {σ σS : St} {E : Spec.Env} {pend : Spec.SNS} 
     (lex : Bool) (mod W extra : Nat) {newF : List (Name × Clo)} {newD : List (Name × Spec.SFun)}
     (hF : ClosRel newF newD) (hR : RelW l σ E) (hN : NSRel σ.next pend) (hfr : σS.frames = σ.next :: σ.frames)
     (hbl : σS.bufs.length = E.nb + extra) :
-    RelC (!lex) ⟨bound ++ l.vars, newF ++ l.funs, W, [], σ.next, clex, lex, mod⟩ σS
+    RelC (!lex) ⟨bound ++ l.vars, newF ++ l.funs, W, [], σ.next, clex, [], lex, mod⟩ σS
       ⟨bound ++ E.vars, newD ++ E.defs, pend, [], E.nb + extra, E.nf + 1, mod⟩ := by
   refine ⟨fun x => lookup_bound x bound _ _ (hR.vars x), ⟨σS.loops.map (·.index), by simp⟩, hbl, by simp [hfr, hR.nf],
     hF.append hR.funs, rfl, fun hcv => ?_, hN⟩
@@ -149,7 +149,7 @@ theorem relc_def_start {l : Loc} {σ σS : St} {E : Spec.Env} {pend : Spec.SNS} 
 theorem relc_body_start {l : Loc} {σ σS : St} {E : Spec.Env} {lexS : Spec.SNS} (bound : List (Name × Str)) (clex : NS)
     (mod W : Nat) {defs' : List (Name × Spec.SFun)} (hF : ClosRel l.funs defs') (hR : RelW l σ E)
     (hL : NSRel clex lexS) (hfr : σS.frames = σ.frames) (hbl : σS.bufs.length = E.nb) :
-    RelC true ⟨bound ++ l.vars, l.funs, W, [], clex, clex, true, mod⟩ σS
+    RelC true ⟨bound ++ l.vars, l.funs, W, [], clex, clex, [], true, mod⟩ σS
       ⟨bound ++ E.vars, defs', lexS, [], E.nb, E.nf, mod⟩ :=
   ⟨fun x => lookup_bound x bound _ _ (hR.vars x), ⟨σS.loops.map (·.index), by simp⟩, hbl, by simp [hfr, hR.nf],
     hF, rfl, fun _ => ⟨clex, by simp [callerView], hL⟩, hL⟩
@@ -172,10 +172,7 @@ theorem rc_invoke (n : Nat) (ih : ∀ m, m < n + 1 → RC ts k m) : InvokeRef ts
       hg hRS hnS (fun h => by cases h) hlS hσS hbS hwS hS htoS
     obtain ⟨b, _, _⟩ := (all_good (progOf ts k) (codegen_cfg_ok ts k) m).exec _ lS σS iS topS restS
       ((emits body).stmts s) hlS hσS hbS hwS oS lS' σS' hS htoS
-    refine ⟨out, vars', h1, h2, h5, b.frames, b.loops, ?_⟩
-    rcases b.next with h | h
-    · rw [h, hnS]
-    · exact h
+    exact ⟨out, vars', h1, h2, h5, b.frames, b.loops, by rw [b.next, hnS]⟩
   cases hfr with
   | def_ s ps fl body own lex mod kind hk hc hnd hg =>
     simp only at hmod hbody
@@ -209,7 +206,7 @@ theorem rc_invoke (n : Nat) (ih : ∀ m, m < n + 1 → RC ts k m) : InvokeRef ts
           · exact hσ1.next
           · exact hσ1.frames f h, NSOK_nil⟩
     have hN1 : NSRel σ1.next pend := by rw [hn1]; exact hN
-    have hlS : ∀ W, LocOK ⟨bound ++ l.vars, newF ++ l.funs, W, [], σ1.next, clex, lex, cmod⟩ := by
+    have hlS : ∀ W, LocOK ⟨bound ++ l.vars, newF ++ l.funs, W, [], σ1.next, clex, [], lex, cmod⟩ := by
       intro W
       refine ⟨?_, hσ1.next, hlex⟩
       intro p hp
